@@ -222,6 +222,10 @@ def VDB(
     return result
 
 
+def _is_castable(item):
+    return item is not None
+
+
 def _xnpv(rate, values, dates):
     if rate <= -1.0:
         return float('inf')
@@ -302,8 +306,10 @@ def XNPV(
     https://support.microsoft.com/en-us/office/
         xnpv-function-1b42bbf6-370f-4532-a0eb-d67c16b664b7
     """
-    values = values.flatten(func_xltypes.Number, None)
-    dates = dates.flatten(func_xltypes.DateTime, None)
+    # Only drop what could not be cast: a zero cash flow is a value (the
+    # default filter of flatten() would drop it and desynchronise the dates).
+    values = values.flatten(func_xltypes.Number, _is_castable)
+    dates = dates.flatten(func_xltypes.DateTime, _is_castable)
 
     # TODO: Ignore non numeric cells and boolean cells.
     if len(values) != len(dates):
